@@ -73,6 +73,13 @@ BOUNDED += [{"name": "tick_budget:%s" % k, "kind": "playground", "props": ["C25"
             for k, t in (("infinite_while", "while True { }\n"), ("unbounded_recursion", "fun f(n: Int): Int { f(n + 1) + 1 }\nf(0)\n"),
                          ("mutual_recursion_in_closures", "fun a(n: Int): Int { let g = fun(m: Int): Int { b(m) }  g(n + 1) }\nfun b(n: Int): Int { a(n) + 1 }\na(0)\n"),
                          ("loop_inside_a_test_then_toplevel_loop", "test spin { while True { } }\nlet n = 0\nwhile True { n += 1 }\n"))]
+_BLOCK_ORACLE = "('the run did not finish (standard input is an open pipe that never delivers anything)' if rc == 'timeout' else ('' if 'unsafe' in out or 'sandbox' in out.lower() else 'no sandbox refusal: ' + out[-200:]))"
+BOUNDED += [{"name": "blocking_builtin:%s" % k, "kind": kind_, "props": ["C25"], "n_inputs": 1, "timeout": 20, "stdin_open": True, "input": t, "args": [0], "expect": {"py": _BLOCK_ORACLE, "timeout_ok": True},
+             "bound": "one sandboxed program (%s) run with standard input attached to a pipe that stays open and silent: the run ends with the sandbox refusal" % k}
+            for k, kind_, t in (("read_line_in_playground", "playground", "println(\"name?\")\nlet n = read_line()\nprintln(n)\n"),
+                                ("read_line_in_a_function_value", "playground", "let f = read_line\nlet xs = [1].map(fun(_) { f() })\nprintln(string_repr(xs))\n"),
+                                ("read_line_in_sandboxed_test", "sandboxed-test", "// cursor outside every test\ntest waits { let n = read_line()  assert(n == \"\") }\n"),
+                                ("shell_sleep_in_playground", "playground", "import \"__shell.gdn\" as shell\nshell::run(\"sleep\", [\"600\"])\n"))]
 for _dn, _dk, _dd, _dl in (("nested_list_6000", "list", 6000, "1"), ("nested_option_6000", "option", 6000, "1"), ("nested_list_3000_displayed", "list", 3000, "x")):
     BOUNDED.append({"name": "deep_value:" + _dn, "kind": "playground", "props": ["C25"], "n_inputs": 1, "timeout": 120, "input": _nest_prog(_dk, _dd, _dl), "expect": {"py": _ORACLE},
                     "bound": "one playground program: a %s nested %d deep%s" % (_dk, _dd, ", displayed as the result" if _dl == "x" else "")})
